@@ -267,6 +267,21 @@ func (c *Conn) Done() <-chan struct{} {
 	return c.shut
 }
 
+// abort shuts down the connection with the given error unless a
+// shutdown has already begun.  The caller must NOT be holding onto c.mu.
+func (c *Conn) abort(abortErr error) {
+	c.mu.Lock()
+	select {
+	case <-c.bgctx.Done():
+		c.mu.Unlock()
+	default:
+		// shutdown unlocks c.mu.
+		if err := c.shutdown(abortErr); err != nil {
+			c.report(err)
+		}
+	}
+}
+
 // shutdown tears down the connection and transport, optionally sending
 // an abort message before closing.  The caller must be holding onto
 // c.mu, although it will be released while shutting down, and c.bgctx
